@@ -1,6 +1,7 @@
 (* C13 — ill-formed grammars are refused up front (reference / name checks). *)
 From Coq Require Import List String NArith Bool.
-From Pegen Require Import Base.StrUtil Grammar.Ast Analysis.Visitor Analysis.RuleCheck Proofs.RuleCheckProofs.
+From Pegen Require Import Base.StrUtil Grammar.Ast Analysis.Visitor Analysis.RuleCheck Proofs.RuleCheckProofs
+  Base.Values Runtime.Tokenizer Sem.Peg Gen.Gen Runtime.Exec Proofs.ExecRefs.
 Import ListNotations.
 Open Scope string_scope.
 
@@ -38,6 +39,25 @@ Proof.
   destruct H as (_ & _ & H). destruct (H r Hr) as [_ Hg]. specialize (Hg x Hx). congruence.
 Qed.
 Print Assumptions C13_underscore_var_refused.
+
+(* The second half, "accepted grammars never crash the parser" for references: if every call of the
+   generated module names one of its methods or a runtime primitive and every expect() argument is
+   a quoted literal ([refs_ok]: decidable, evaluated each run on the module the generator model
+   produces for every explored accepted grammar), then NO run -- any input, configuration, fuel,
+   state, entry rule -- ends in AttributeError for a missing method. *)
+Theorem C13_every_reference_resolves :
+  forall K toks verbose use_cache M aeval exact_types token_dict,
+  refs_ok K M = true ->
+  forall fuel n st, find_meth M n <> None ->
+  match fst (run K toks verbose use_cache M aeval exact_types token_dict fuel n st) with
+  | Raise (XAttributeError _) => False
+  | _ => True
+  end.
+Proof.
+  intros K toks verbose use_cache M aeval ex td H fuel n st Hn.
+  exact (references_resolve K toks verbose use_cache M aeval ex td H fuel n Hn st).
+Qed.
+Print Assumptions C13_every_reference_resolves.
 
 (* decidable form of the side condition, evaluated on the extracted table on every run *)
 Theorem C13_fields_ok_decidable : forall tbl, fields_ok_b tbl = true -> fields_ok tbl.
